@@ -9,6 +9,8 @@ import GqlVerif.Proofs.ModuleOkInputsClasses
 import GqlVerif.Proofs.C01NestedK
 import GqlVerif.Proofs.C01NestedAbsE
 import GqlVerif.Proofs.C01AliasFragK
+import GqlVerif.Proofs.C01NestedGenE
+import GqlVerif.Proofs.C01NestedGenXE
 open GqlVerif.C17
 #print axioms search_guarded_eq
 #print axioms search_guarded_total
@@ -123,3 +125,6 @@ open GqlVerif.C17
 #print axioms GqlVerif.C01NA.nestedabs_module_envOK
 -- AliasFragOp (P48)
 #print axioms GqlVerif.C01AF.aliasfrag_module_envOK
+-- NestedGenOp / NestedGen2Op (P47)
+#print axioms GqlVerif.C01NG.nestedgen_module_envOK
+#print axioms GqlVerif.C01NX.nestedgen2_module_envOK
